@@ -170,6 +170,16 @@ CLAIMED = {
             "equality judgement; the verdict is byte comparison across processes.",
             "Trusted: independent processes really differ in hash seeds/ASLR; sha256.",
             "5 C15"),
+    "C13": ("model_checking",
+            "TLA+ CoreSurface.tla (on CallConv/CanonABI) evaluated by TLC over WorldGrammar.tla worlds = expected core imports/exports "
+            "with signatures (spec->impl); generators' declared surface read from the real wasm32 module (C: clang+wasm-ld) or by "
+            "fail-closed declaration scanners (Rust, C++, C#, Go, MoonBit, D); wit_component::ComponentEncoder as second oracle",
+            "Every (constructor, position, role) cell with cycling function kind/direction plus the flattening-boundary worlds in "
+            "all kinds/directions, sync and --async=all, all seven backends with their crates/test variants, plus the tests/codegen "
+            "corpus judged against wit-parser's mangling. The spec itself is meta-checked against wit-parser on every world.",
+            "Trusted: wit-parser/wit-component 0.257 as the reference for names; clang 14/wasm-ld for C; the scanners' type-spelling "
+            "tables. Not covered: whether text-scanned imports are really referenced at link time (approximated by identifier use).",
+            "5 C13"),
     "C31": ("exploration",
             "WorldGrammar.tla worlds + adversarial-name worlds + corpus -> real C++ generator -> g++ -std=c++20 -fsyntax-only "
             "against the repository's helper headers",
